@@ -329,7 +329,7 @@ func GenIdent(r *Rand, cfg *telemetry.UploadConfig) Ident {
 }
 
 func mutateName(r *Rand, s string) string {
-	switch r.Intn(7) {
+	switch r.Intn(8) {
 	case 0:
 		if len(s) > 0 {
 			return s[:len(s)-1]
@@ -346,6 +346,10 @@ func mutateName(r *Rand, s string) string {
 		return strings.ToUpper(s)
 	case 5:
 		return s + s
+	case 6:
+		if i := strings.Index(s, ":"); i >= 0 && r.Bool() {
+			return s[:i] // the chart name alone (pgcounterprefix)
+		}
 	}
 	return s
 }
